@@ -607,3 +607,179 @@ def run(chk, F, G):
            "expression_t::print streams get_double_value() with the default ostream precision (6 significant "
            "digits): 0.1234567891 prints as 0.123457 and re-parses to a different constant",
            "%s:%s" % (PR.fn["file"], PR.fn["line"]))
+
+
+# ------------------------------------------------------------------------------- R-PRROLES
+# what a way of reading child j in expression_t::print says about the role of that child; the role names are the
+# names of the type checker's own per-child checks (checkBound(expr[2]) -> "Bound")
+PRINT_ROLE_OF_HELPER = {"print_bound_type": "BoundTypeOrBoundedExpr", "print_number_of_runs": "NrOfRuns"}
+
+
+def run_roles(chk, F, rid="R-PRROLES"):
+    """The child layout of the SMC query kinds is an interface with three users: ExpressionBuilder stores the children,
+    TypeChecker::checkExpression checks child i with a helper named after its role, expression_t::print reads child j
+    in a way that presupposes a role (print_bound_type, get_double_value, `== BOX`, `? "max: " : "min: "`).  The printer
+    and the type checker must agree; a printer that is one position off prints a different query or throws
+    (std::get on the wrong alternative)."""
+    from ..inline import KindSlicer
+    from . import gates as G
+    chk.rule(rid, "for every kind whose children TypeChecker::checkExpression checks one by one with role-named helpers "
+                  "(checkNrOfRuns, checkBoundTypeOrBoundedExpr, checkBound, checkPredicate, checkProbBound, ...): each "
+                  "role-revealing access of expression_t::print to child j (print_bound_type, get_double_value, "
+                  "comparison of get_value() with BOX/DIAMOND, get_value() choosing max/min) hits the child with that "
+                  "role, and every checked child except the number of runs and the until condition is printed")
+    ce = F.fn("UTAP::TypeChecker::checkExpression")
+    ename = ce["params"][0]["name"]
+    pr = F.fn("UTAP::expression_t::print")
+    kinds = [v["name"] for v in F.enum("UTAP::Constants::kind_t")["values"]]
+    ts = KindSlicer(F, ce, subject=ename, stop=("checkExpression",), expand_helpers=False)
+    ps = KindSlicer(F, pr, subject="this", stop=("print",), expand_helpers=False)
+    # kinds mentioned as case labels in both functions
+    labels = set()
+    for n in walk(ce["body"]):
+        if n.get("k") == "case" and isinstance(n.get("v"), dict) and n["v"].get("k") == "ref":
+            labels.add(n["v"].get("name"))
+    n_kinds = 0
+    for K in sorted(k for k in kinds if k in labels):
+        roles = {}
+        for c in calls(ts.slice(K)):
+            nm = c.get("name") or ""
+            if not nm.startswith("check") or nm in ("checkExpression", "checkType") or not c.get("args"):
+                continue
+            for a in c["args"]:
+                p = G.path_of(a)
+                if p and len(p) == 2 and p[0] == ename and p[1].startswith("[") and p[1][1:-1].isdigit():
+                    roles[int(p[1][1:-1])] = nm[len("check"):]
+        if len(roles) < 3:
+            continue
+        n_kinds += 1
+        body = ps.slice(K)
+        uses = []           # (child index, required role, how)
+
+        def child(e):
+            while isinstance(e, dict) and (e.get("k") == "cast" or (e.get("k") == "construct" and len(e.get("args", [])) == 1)):
+                e = e["e"] if e.get("k") == "cast" else e["args"][0]
+            if isinstance(e, dict) and e.get("k") == "call" and e.get("name") == "get" and e.get("args") and \
+                    e["args"][0].get("k") == "int" and (e.get("recv") is None or e["recv"].get("k") == "this"):
+                return e["args"][0]["v"]
+            return None
+        printed = set()
+        for x in walk(body):
+            if x.get("k") != "call":
+                if x.get("k") == "cond":
+                    # (get(j).get_value() ? "max: " : "min: ")
+                    txt = short(x.get("a")) + short(x.get("b"))
+                    for c in calls(x.get("c"), "get_value"):
+                        j = child(c.get("recv"))
+                        if j is not None and "max" in txt and "min" in txt:
+                            uses.append((j, "AggregationOp", "get(%d).get_value() ? max : min" % j))
+                if x.get("k") == "bin" and x.get("op") in ("==", "!="):
+                    for a, b in ((x["lhs"], x["rhs"]), (x["rhs"], x["lhs"])):
+                        while isinstance(a, dict) and a.get("k") == "cast":
+                            a = a["e"]
+                        while isinstance(b, dict) and b.get("k") == "cast":
+                            b = b["e"]
+                        if isinstance(a, dict) and a.get("k") == "call" and a.get("name") == "get_value" and \
+                                child(a.get("recv")) is not None and isinstance(b, dict) and b.get("dk") == "enumerator" and \
+                                b.get("name") in ("BOX", "DIAMOND"):
+                            uses.append((child(a["recv"]), "PathQuant", "get(%d).get_value() == %s" % (child(a["recv"]), b["name"])))
+                continue
+            nm = x.get("name")
+            if nm in PRINT_ROLE_OF_HELPER:
+                for a in x.get("args", []):
+                    j = child(a)
+                    if j is not None:
+                        uses.append((j, PRINT_ROLE_OF_HELPER[nm], "%s(get(%d))" % (nm, j)))
+                        printed.add(j)
+            if nm == "get_double_value" and child(x.get("recv")) is not None:
+                j = child(x["recv"])
+                uses.append((j, "ProbBound", "get(%d).get_double_value()" % j))
+                printed.add(j)
+            if nm == "print" and child(x.get("recv")) is not None:
+                printed.add(child(x["recv"]))
+            if nm in ("get_value", "get_string_value") and child(x.get("recv")) is not None:
+                printed.add(child(x["recv"]))
+        for j, need, how in uses:
+            chk.ob(rid, "%s|%s" % (K, how.replace(" ", "")), roles.get(j) == need,
+                   "expression_t::print(%s) reads child %d as the %s (`%s`), but TypeChecker::checkExpression checks "
+                   "child %d as %s (layout %s): the printed query differs from the parsed one, or std::get throws on "
+                   "the wrong alternative" % (K, j, need, how, j, roles.get(j, "nothing"),
+                                              ", ".join("%d=%s" % kv for kv in sorted(roles.items()))),
+                   "%s:%s" % (pr["file"], pr["line"]), sample="%s: %s is the %s" % (K, how, need))
+        for j, role in sorted(roles.items()):
+            if role in ("NrOfRuns", "UntilCond"):
+                continue
+            chk.ob(rid, "%s|child%d-printed" % (K, j), j in printed,
+                   "expression_t::print(%s) never prints child %d (the %s)" % (K, j, role),
+                   "%s:%s" % (pr["file"], pr["line"]))
+    if n_kinds < 4:
+        raise AnalysisBroken("only %d kinds with role-named per-child checks found in checkExpression" % n_kinds)
+    chk.analysed[rid] = {"kinds_with_role_tables": n_kinds}
+
+
+# ------------------------------------------------------------------------------- R-PRTOTAL
+def run_total(chk, F, rid="R-PRTOTAL"):
+    """`String conversion itself never throws or crashes`: documents hold empty expressions (the `default` entry of a
+    channel priority list, absent labels, absent initialisers) and the document-level printers and the XML writer call
+    str() / print() on them.  expression_t::print must therefore be total on the empty expression: nothing that needs
+    the node (data->.., another member function on this, *this handed to a helper) may run before empty() was tested;
+    and a printer that writes a list of possibly-empty entries must give the empty entry its spelling."""
+    from ..inline import sites_with_conditions, strip
+    chk.rule(rid, "expression_t::print touches the node (data->, a member function other than empty(), *this as an "
+                  "argument) only after it has tested empty(); chan_priority_t::print spells an empty tail entry "
+                  "(`default`) instead of handing it to print")
+    pr = F.fn("UTAP::expression_t::print")
+
+    def is_this(e):
+        e = strip(e) if e is not None else None
+        return e is None or e.get("k") == "this" or (e.get("k") == "un" and e.get("op") == "*" and
+                                                       strip(e.get("e")).get("k") == "this")
+
+    def touches(n):
+        if n.get("k") == "member" and n.get("arrow") and (n.get("base") or {}).get("k") == "member" and \
+                n["base"].get("name") == "data":
+            return True
+        if n.get("k") == "call" and n.get("cls") == "UTAP::expression_t" and n.get("ck") == "member" and \
+                is_this(n.get("recv")) and n.get("name") not in ("empty",):
+            return True
+        if n.get("k") == "call" and any(isinstance(a, dict) and strip(a).get("k") == "un" and strip(a).get("op") == "*" and
+                                        strip(strip(a).get("e")).get("k") == "this" for a in n.get("args", [])):
+            return True
+        return False
+
+    def guarded(conds):
+        for c, t in conds:
+            c0, neg = strip(c), False
+            while isinstance(c0, dict) and c0.get("k") == "un" and c0.get("op") == "!":
+                c0, neg = strip(c0["e"]), not neg
+            if isinstance(c0, dict) and c0.get("k") == "call" and c0.get("name") == "empty" and is_this(c0.get("recv")):
+                if t == neg:            # empty() is false here
+                    return True
+            if isinstance(c0, dict) and c0.get("k") in ("member", "call") and "data" in short(c0) and \
+                    "empty" not in short(c0) and t != neg and c0.get("name") in ("data", "operator bool"):
+                return True
+        return False
+    sites = sites_with_conditions(pr["body"], touches)
+    if len(sites) < 20:
+        raise AnalysisBroken("expression_t::print: only %d node accesses found" % len(sites))
+    bad = [s for s, cs in sites if not guarded(cs)]
+    chk.ob(rid, "print|empty-guard", not bad,
+           "expression_t::print uses the node before testing empty() (first at line %s: `%s`; %d of %d accesses): str() "
+           "or print() of an empty expression - the `default` entry of `chan priority a < default < b;`, which "
+           "chan_priority_t::print and the XML writer print - dereferences a null pointer" %
+           (bad[0].get("l") if bad else "?", short(bad[0])[:50] if bad else "", len(bad), len(sites)),
+           "%s:%s" % (pr["file"], pr["line"]), sample="%d node accesses, all after the empty() test" % len(sites))
+    cp = F.fn("UTAP::chan_priority_t::print")
+    # the tail entries: printing an entry is either guarded by a test of its emptiness or spelled `default`
+    loops = [n for n in walk(cp["body"]) if n.get("k") in ("rangefor", "for")]
+    ok = False
+    for lp in loops:
+        inner = sites_with_conditions(lp.get("body") or {}, lambda n: n.get("k") == "call" and n.get("name") in ("print", "str")
+                                      and n.get("cls") == "UTAP::expression_t")
+        if inner and all(any("empty" in short(c) for c, _ in cs) for _, cs in inner) and \
+                any(x.get("k") == "str" and x.get("v") == "default" for x in walk(lp.get("body") or {})):
+            ok = True
+    chk.ob(rid, "chan_priority|default-in-tail", ok,
+           "chan_priority_t::print hands every tail entry to expression_t::print; the `default` entry is an empty "
+           "expression and prints as nothing (`a <  < b`), so the written declaration does not parse",
+           "%s:%s" % (cp["file"], cp["line"]))
